@@ -93,6 +93,44 @@ theorem write_one_datagram (frames : List Bytes) (sent : List Bytes) :
   | nil => simp
   | cons f fs ih => rw [List.foldl_cons, ih]; simp [Udp.write]
 
+theorem read_conserved (buf : Bytes) (o : Nat) (ds : List Bytes) (hd : ∀ d ∈ ds, d.length ≤ maxDatagram)
+    (chunk buf' : Bytes) (ds' : List Bytes) (h : Udp.read buf o ds = some (chunk, buf', ds')) :
+    chunk ++ buf' ++ ds'.flatten = buf ++ ds.flatten ∧ (∀ d ∈ ds', d.length ≤ maxDatagram) := by
+  unfold Udp.read at h
+  split at h
+  · rename_i b bs
+    injection h with h; injection h with h1 h2; injection h2 with h2 h3
+    subst h1; subst h2; subst h3
+    exact ⟨by rw [List.take_append_drop], hd⟩
+  · split at h
+    · cases h
+    · rename_i d ds0
+      injection h with h; injection h with h1 h2; injection h2 with h2 h3
+      subst h1; subst h2; subst h3
+      have hdl : d.take maxDatagram = d := List.take_of_length_le (hd d (by simp))
+      refine ⟨?_, fun x hx => hd x (by simp [hx])⟩
+      rw [hdl, List.take_append_drop]; simp
+
+theorem readExact_conserved : ∀ (fuel : Nat) (buf : Bytes) (n : Nat) (ds : List Bytes) (acc : Bytes),
+    (∀ d ∈ ds, d.length ≤ maxDatagram) →
+    ∀ (out buf' : Bytes) (ds' : List Bytes), Udp.readExact fuel buf n ds acc = some (out, buf', ds') →
+      out ++ buf' ++ ds'.flatten = acc ++ buf ++ ds.flatten ∧ (∀ d ∈ ds', d.length ≤ maxDatagram)
+  | fuel, buf, 0, ds, acc, hd, out, buf', ds', h => by
+    cases fuel <;> (simp only [Udp.readExact] at h; injection h with h; injection h with h1 h2; injection h2 with h2 h3; subst h1; subst h2; subst h3; exact ⟨rfl, hd⟩)
+  | 0, buf, n + 1, ds, acc, hd, out, buf', ds', h => by simp [Udp.readExact] at h
+  | fuel + 1, buf, n + 1, ds, acc, hd, out, buf', ds', h => by
+    simp only [Udp.readExact] at h
+    split at h
+    · cases h
+    · rename_i chunk b1 d1 hr
+      split at h
+      · cases h
+      · obtain ⟨hc, hd1⟩ := read_conserved buf (n + 1) ds hd chunk b1 d1 hr
+        obtain ⟨h2, hd2⟩ := readExact_conserved fuel b1 (n + 1 - chunk.length) d1 (acc ++ chunk) hd1 out buf' ds' h
+        refine ⟨?_, hd2⟩
+        rw [h2, List.append_assoc, List.append_assoc, ← List.append_assoc chunk, hc]
+        simp [List.append_assoc]
+
 /-- **writes, flushes and failed receive attempts never disturb the receive side**: for any interleaving of reads
 (any offered sizes), flushes, writes and reads that find nothing to receive, the chunks served, followed by what the adaptor still holds and the datagrams still to
 arrive, are exactly the buffered bytes and the datagrams in order — and the datagrams sent are exactly the
@@ -105,6 +143,17 @@ theorem ops_conserved (s : Udp.ASt) (ops : List Udp.AOp) (hd : ∀ d ∈ s.ds, d
     cases op with
     | fl => simpa [Udp.runOps] using ih s hd
     | idle => simpa [Udp.runOps] using ih s hd
+    | rx n =>
+      obtain ⟨buf, ds, sent⟩ := s
+      simp only [Udp.runOps]
+      cases hr : Udp.readExact (n + 1) buf n ds [] with
+      | none => simp
+      | some r =>
+        obtain ⟨chunk, b', d'⟩ := r
+        obtain ⟨hc, hd'⟩ := readExact_conserved (n + 1) buf n ds [] hd chunk b' d' hr
+        have := ih { buf := b', ds := d', sent := sent } hd'
+        simp only [List.flatten_cons, List.append_assoc, List.nil_append] at this hc ⊢
+        rw [this, hc]
     | wr f => simpa [Udp.runOps] using ih { s with sent := Udp.write f s.sent } hd
     | rd o =>
       obtain ⟨buf, ds, sent⟩ := s
@@ -141,6 +190,13 @@ theorem ops_sent_prefix (s : Udp.ASt) (ops : List Udp.AOp) :
     cases op with
     | fl => simpa [Udp.runOps, written] using ih s
     | idle => simpa [Udp.runOps, written] using ih s
+    | rx n =>
+      simp only [Udp.runOps, written]
+      cases hr : Udp.readExact (n + 1) s.buf n s.ds [] with
+      | none => exact ⟨0, by simp⟩
+      | some r =>
+        obtain ⟨c, b', d'⟩ := r
+        simpa using ih { s with buf := b', ds := d' }
     | wr f =>
       obtain ⟨k, hk⟩ := ih { s with sent := Udp.write f s.sent }
       refine ⟨k + 1, ?_⟩
